@@ -584,7 +584,7 @@ async fn drive(c: &Case) -> CheckResult {
     use tokio::io::AsyncWriteExt;
 
     let p = plan(c, false);
-    let src = IpAddr::V4(Ipv4Addr::new(127, 0, 8, 2));
+    let src = crate::props::wirepeer::fresh_loopback();
     let rig = AdmitRig::new(LOCAL_AS, None).await.map_err(|e| Failure::new("harness", e))?;
     let cfg = NeighborCfg { addr: src, remote_asn: REMOTE_AS, local_asn: 0, rs_client: false, rr_client: false, cluster_id: None, admin_down: false, holdtime: c.local_hold as u64, families: vec![(packet::Family::IPV4, 0)], prefix_limit: None, gr: None, llgr: None };
     if !rig.add_neighbor(&cfg).await {
